@@ -63,6 +63,11 @@ impl Record {
 
 #[cfg(memcrs_verif)]
 impl Record {
+    /// The value bytes of the record.
+    pub fn verif_value(&self) -> &[u8] {
+        &self.value
+    }
+
     /// (timestamp, cas, flags, ttl) of the record.
     pub fn verif_parts(&self) -> (u64, u64, u32, u32) {
         (
